@@ -1134,8 +1134,7 @@ impl PartialOrd for d128 {
     }
 
     fn le(&self, other: &Self) -> bool {
-        let mut status: _IDEC_flags = StatusFlags::BID_EXACT_STATUS;
-        bid128_quiet_less_equal(self, other, &mut status)
+        matches!(self.partial_cmp(other), Some(Ordering::Less | Ordering::Equal))
     }
 
     fn gt(&self, other: &Self) -> bool {
@@ -1144,8 +1143,7 @@ impl PartialOrd for d128 {
     }
 
     fn ge(&self, other: &Self) -> bool {
-        let mut status: _IDEC_flags = StatusFlags::BID_EXACT_STATUS;
-        bid128_quiet_greater_equal(self, other, &mut status)
+        matches!(self.partial_cmp(other), Some(Ordering::Greater | Ordering::Equal))
     }
 }
 
